@@ -237,8 +237,8 @@ def plan(tier, seed):
         for fi, fam in enumerate(FIELDS):
             for i in range(per):
                 cases.append({'cls': cls, 'field': fam, 'seed': [seed, 11, ci, fi, i], 'nmax': 5 if NDIM[cls] < 3 else 4})
-            for i in range(per // 3):      # tiny / huge length units and almost-uniform spacing
-                cases.append({'cls': cls, 'field': fam, 'seed': [seed, 11, ci, fi, 10000 + i], 'nmax': 5 if NDIM[cls] < 3 else 4, 'geo': ['nano', 'jitter', 'mega', 'int'][i % 4]})
+            for i in range(max(7, per // 2)):      # tiny / huge length units, almost-uniform spacing, integer-typed, far-off, negative, wildly graded grids
+                cases.append({'cls': cls, 'field': fam, 'seed': [seed, 11, ci, fi, 10000 + i], 'nmax': 5 if NDIM[cls] < 3 else 4, 'geo': ['nano', 'jitter', 'mega', 'int', 'offset', 'negative', 'wild'][i % 7]})
         if NDIM[cls] > 1:
             for i in range(per * 2):
                 cases.append({'kind': 'embed', 'cls': cls, 'seed': [seed, 11, ci, 99, i]})
@@ -256,8 +256,8 @@ def floors(agg, tier):
             out.append('cases:%s < %d' % (cls, need))
         if NDIM[cls] > 1 and agg['cov'].get('embed:' + cls, 0) < 10:
             out.append('embed:%s < 10' % cls)
-    for geo in ('nano', 'jitter', 'mega', 'int'):
-        if agg['cov'].get('geo:' + geo, 0) < 50:
+    for geo in ('nano', 'jitter', 'mega', 'int', 'offset', 'negative', 'wild'):
+        if agg['cov'].get('geo:' + geo, 0) < 40:
             out.append('geo:%s < 50' % geo)
     for name in ('linear', 'arith', 'geo', 'harm', 'upwind'):
         if agg['cov'].get('faces_checked:' + name, 0) < 1000:
